@@ -30,6 +30,10 @@ func main() {
 		switch rq.Mode {
 		case "scan":
 			resp = doScan(rq.Body)
+		case "counts":
+			resp = doCounts(rq.Body)
+		case "hugeblob":
+			resp = doHugeBlob(rq.Body)
 		default:
 			resp = map[string]string{"error": "unknown mode " + rq.Mode}
 		}
